@@ -3,7 +3,7 @@ from vlib import repairflow as rf
 from vlib.props import c08
 
 RULE = ("Flow A: on the repair machine TLC checks the action property ScanAdvances (loc strictly increases), TickBound (at most n "
-        "scan iterations) and LookupBound for every A/C/G/T string of length k..5 (6) on generated order-1/2 graphs, every start, "
+        "scan iterations) and LookupBound for every A/C/G/T string of length k..5 (6) on generated order-1/2 graphs, every start, and the temporal property Termination (<>Done under weak fairness, strings to 4 nt), "
         "checks, indel on/off, heap limits - every position of every error, including the first nucleotide and the last window; "
         "repair_dna is run on every exported case under a scan-tick budget of n taken from the specification (exceeding it is the "
         "verdict), must return a well-formed (candidates, statistics) pair, raise nothing, and stay inside the look-up bound. "
@@ -16,6 +16,7 @@ MINE = rf.C10
 
 def run(ctx):
     ctx.tlc("MC_Repair", "MC_Repair_witness2.cfg", expect_violation=True, workers=16, heap="8g")
+    ctx.tlc("MC_Repair", "MC_Repair_live.cfg", workers=8, timeout=900)        # <>Done under WF(Next)
     cfgs = ["MC_Repair_strings_quick.cfg"] if ctx.quick else ["MC_Repair_strings_thorough.cfg"]
     na = rf.flow_a(ctx, cfgs, MINE, "A")
     ctx.exhaustive = True
